@@ -36,7 +36,7 @@ BEHS = ["falsy", "truthy", "raise", "raise_if_exc"]
 BEHS_EXTRA = BEHS + ["raise_base", "raise_base_if_exc", "reraise_same", "reraise_same",
                      # standard exception types a library may be tempted to catch for its own purposes
                      "raise_std:StopAsyncIteration", "raise_std:RuntimeError", "raise_std:KeyError", "raise_std:AttributeError",
-                     "raise_std:TypeError", "raise_std:GeneratorExit", "raise_chained", "raise_chained"]
+                     "raise_std:TypeError", "raise_std:GeneratorExit", "raise_chained", "raise_chained", "raise_while_reraising", "raise_while_reraising"]
 STD = {"StopAsyncIteration": StopAsyncIteration, "RuntimeError": RuntimeError, "KeyError": KeyError,
        "AttributeError": AttributeError, "TypeError": TypeError, "GeneratorExit": GeneratorExit}
 FALSY = [None, False, 0, ""]
@@ -129,6 +129,15 @@ def mk_entry(kind, beh, i, log, susp, choice):
             return None
         if beh.startswith("raise_std:"):
             raise STD[beh.split(":")[1]](f"s{i}")
+        if beh == "raise_while_reraising":
+            # the handler re-raises what it received and fails while handling THAT: the new exception's context is
+            # the received exception by the interpreter's own doing
+            if ev is not None:
+                try:
+                    raise ev
+                except BaseException:
+                    raise E(f"w{i}")
+            return None
         if beh == "raise_chained":
             # the handler's own failure already carries a context chain of its own
             try:
